@@ -64,14 +64,39 @@ impl ExponentialBackoff {
 
 impl IntervalFunction for ExponentialBackoff {
     fn next_interval(&self, attempt: usize) -> Duration {
-        let multiplier = self.multiplier.powi(attempt as i32);
-        let interval = self.initial_interval.mul_f64(multiplier);
+        exponential_interval(
+            self.initial_interval,
+            self.multiplier,
+            attempt,
+            self.max_interval,
+        )
+    }
+}
 
-        if let Some(max) = self.max_interval {
-            interval.min(max)
-        } else {
-            interval
-        }
+/// `initial * multiplier^attempt`, capped at `max`, computed without panicking: the result
+/// saturates at `Duration::MAX` (or the cap) instead of overflowing, for every attempt number.
+fn exponential_interval(
+    initial: Duration,
+    multiplier: f64,
+    attempt: usize,
+    max: Option<Duration>,
+) -> Duration {
+    if initial.is_zero() {
+        return Duration::ZERO;
+    }
+    // `attempt as i32` would wrap to a negative exponent for huge attempt numbers.
+    let exponent = i32::try_from(attempt).unwrap_or(i32::MAX);
+    let seconds = initial.as_secs_f64() * multiplier.powi(exponent);
+    // Too large for a Duration (or infinite): saturate instead of panicking.
+    let interval = Duration::try_from_secs_f64(seconds).unwrap_or(if seconds > 0.0 {
+        Duration::MAX
+    } else {
+        initial
+    });
+
+    match max {
+        Some(max) => interval.min(max),
+        None => interval,
     }
 }
 
@@ -119,20 +144,19 @@ impl ExponentialRandomBackoff {
         let min = duration.as_secs_f64() - delta;
         let max = duration.as_secs_f64() + delta;
         let randomized = rng.random_range(min..=max);
-        Duration::from_secs_f64(randomized.max(0.0))
+        // The upper end of the range may not fit in a Duration: saturate instead of panicking.
+        Duration::try_from_secs_f64(randomized.max(0.0)).unwrap_or(Duration::MAX)
     }
 }
 
 impl IntervalFunction for ExponentialRandomBackoff {
     fn next_interval(&self, attempt: usize) -> Duration {
-        let multiplier = self.multiplier.powi(attempt as i32);
-        let interval = self.initial_interval.mul_f64(multiplier);
-
-        let capped = if let Some(max) = self.max_interval {
-            interval.min(max)
-        } else {
-            interval
-        };
+        let capped = exponential_interval(
+            self.initial_interval,
+            self.multiplier,
+            attempt,
+            self.max_interval,
+        );
 
         self.randomize(capped)
     }
